@@ -9,6 +9,11 @@
 
 using namespace pbt;
 
+// Memory footprint: rapidcheck's deep, varying call chains make ASan's stack depot grow by ~3 KB per 1000 cases with
+// the default 30-frame allocation stacks, and the default 256 MB free-quarantine is pointless for these pure functions.
+// (Defaults only: anything set in the ASAN_OPTIONS environment by ./check wins.  Error stacks themselves stay complete.)
+extern "C" const char *__asan_default_options() { return "malloc_context_size=6:quarantine_size_mb=32"; }
+
 static const char *ALG[3] = {"sha256", "sha1", "md5"};
 static const int DLEN[3] = {32, 20, 16};
 static const EVP_MD *evp(int alg) { return alg == 0 ? EVP_sha256() : alg == 1 ? EVP_sha1() : EVP_md5(); }
@@ -399,8 +404,11 @@ static rc::Gen<Case> gen_pbkdf2(int tier) {
     int64_t plen = *rc::gen::weightedOneOf<int>({{8, range<int>(0, 100)}, {2, range<int>(62, 67)}, {1, range<int>(101, 300)}});
     int64_t slen = *rc::gen::weightedOneOf<int>({{8, range<int>(0, 100)}, {2, range<int>(48, 70)}, {1, range<int>(101, 300)}});
     int64_t cc = *rc::gen::weightedOneOf<int>({{3, rc::gen::just(1)}, {3, rc::gen::just(2)}, {6, range<int>(3, 20)}});
-    if (tier > 0 && *range<int>(0, 9) == 0) cc = *range<int>(21, 3000);
     int64_t dk = *rc::gen::weightedOneOf<int>({{10, range<int>(0, 200)}, {2, range<int>(201, 1100)}});
+    if (tier > 0 && *range<int>(0, 19) == 0) {  // large iteration counts: few output blocks (cost)
+      cc = *range<int>(21, 3000);
+      dk = *range<int>(1, 100);
+    }
     if (*range<int>(0, 60) == 0) {  // block index beyond one byte
       dk = *range<int>(8160, 8500);
       cc = *range<int>(1, 2);
